@@ -24,6 +24,18 @@ def parse_job(name, driver, checks, q, t, variant="release", **kw):
     return j
 
 
+def chess_model(name, invariants, properties, q, t, **kw):
+    """Mode A: bounded model checking of Chess.tla (implementation-shaped layer against the rules layer)."""
+    j = {"type": "model", "name": name, "spec": "Chess", "invariants": ["Sample"] + invariants, "properties": properties, "constraints": ["DepthBound"],
+         "params": {"quick": {"workers": 16, "xmx": "8g", "timeout": 1500, "mc": q}, "thorough": {"workers": 16, "xmx": "12g", "timeout": 6000, "mc": t}}}
+    j.update(kw)
+    return j
+
+
+MCQ = {"roots": "curated", "depth": 1, "sweep": 0}
+MCT = {"roots": "curated", "depth": 2, "sweep": 0}
+
+
 def board_job(name, obs, checks, q, t, variant="release", extra_common=None, **kw):
     common = {"obs": ",".join(obs)}
     if extra_common:
@@ -39,6 +51,7 @@ PROPS = {
         "rule": "states visited by seeded histories (corpus, curated, 960/DFRC starts, constructed builder states; random walks, full subtrees below curated roots); an observation is non-trivial when the position has at least one legal move",
         "assumptions": BOARD_ASSUME,
         "jobs": [
+            chess_model("model-gen", ["WellFormed", "GenExact"], [], MCQ, MCT),
             board_job("gen-magic", ["gen"], ["C01"], {"histories": 500, "subtrees": 80, "deep": 2}, {"histories": 30000, "subtrees": 200, "deep": 30}, sample_kinds=["reset", "gen", "play"]),
             board_job("gen-pext", ["gen"], ["C01"], {"histories": 250, "subtrees": 10}, {"histories": 15000, "subtrees": 200, "deep": 10}, variant="pext", seed_offset=7919, sample_kinds=["gen"]),
         ],
@@ -47,6 +60,7 @@ PROPS = {
         "rule": "transitions (position, legal move, successor) recorded along seeded histories; every legal move of every curated root and of the first 2 roots' successors is played",
         "assumptions": BOARD_ASSUME,
         "jobs": [
+            chess_model("model-play", ["WellFormed"], ["SuccOK"], MCQ, MCT),
             board_job("play", [], ["C02"], {"histories": 900, "subtrees": 80, "deep": 3}, {"histories": 60000, "subtrees": 200, "deep": 40}, sample_kinds=["reset", "play"]),
         ],
     },
@@ -54,6 +68,7 @@ PROPS = {
         "rule": "every logged state after reset / play / null move; rebuild through the builder must be == ; transposition pairs",
         "assumptions": BOARD_ASSUME,
         "jobs": [
+            chess_model("model-derived", ["DerivedOK", "CheckersAreAttackers", "FreshEqual"], [], MCQ, MCT),
             board_job("derived", ["rebuild"], ["C03", "C09"], {"histories": 900, "subtrees": 80, "deep": 2, "transpositions": 150}, {"histories": 60000, "subtrees": 200, "deep": 40, "transpositions": 5000}, sample_kinds=["play", "null", "rebuild", "pair"]),
         ],
         "report": ["C03", "C09"],
@@ -62,6 +77,7 @@ PROPS = {
         "rule": "all 64*64*7 move values swept through is_legal on every visited state; non-trivial = state with a legal move",
         "assumptions": BOARD_ASSUME,
         "jobs": [
+            chess_model("model-islegal", ["IsLegalOK"], [], dict(MCQ, sweep=2), dict(MCT, sweep=2, max_roots=40)),
             board_job("islegal", ["islegal"], ["C04"], {"histories": 500, "subtrees": 80, "deep": 1}, {"histories": 40000, "subtrees": 200, "deep": 30}, sample_kinds=["reset", "islegal"]),
         ],
     },
@@ -77,6 +93,7 @@ PROPS = {
         "rule": "hash / hash_without_ep of every logged state against boards freshly built from the same position by text and builder routes with other clocks and without ep; transposition pairs",
         "assumptions": BOARD_ASSUME,
         "jobs": [
+            chess_model("model-hash", ["HashPure", "FreshEqual"], [], dict(MCQ, setters=1), dict(MCT, setters=1)),
             parse_job("texts", "parse", ["C10"], {"bases": 60, "random": 100, "edits": 20}, {"bases": 4000, "random": 10000, "edits": 40}, sample_kinds=["parse"]),
             board_job("hash", ["fresh"], ["C10"], {"histories": 700, "subtrees": 80, "deep": 1, "transpositions": 200}, {"histories": 50000, "subtrees": 200, "deep": 30, "transpositions": 6000}, sample_kinds=["fresh", "pair", "null"]),
         ],
@@ -86,6 +103,7 @@ PROPS = {
         "rule": "status() on every visited state; histories include clock setters (99, 100), mates and stalemates from curated roots",
         "assumptions": BOARD_ASSUME,
         "jobs": [
+            chess_model("model-status", ["StatusOK"], [], dict(MCQ, setters=1), dict(MCT, setters=1)),
             board_job("status", ["status"], ["C12"], {"histories": 900, "subtrees": 80, "deep": 2}, {"histories": 60000, "subtrees": 200, "deep": 40}, sample_kinds=["status", "sethmc"]),
         ],
     },
@@ -93,6 +111,7 @@ PROPS = {
         "rule": "same_position on pairs (self, predecessor, other clocks, ep cleared, ep set on every accepted file, right dropped, side flipped, non-pawn beside the double-pushed pawn), both argument orders",
         "assumptions": BOARD_ASSUME,
         "jobs": [
+            chess_model("model-same", ["SameAsSelf"], [], MCQ, MCT),
             board_job("same", ["same"], ["C13"], {"histories": 250, "subtrees": 20}, {"histories": 20000, "subtrees": 200, "deep": 10}, sample_kinds=["same"]),
         ],
     },
@@ -100,6 +119,7 @@ PROPS = {
         "rule": "null_move attempted after every move of the curated subtrees and randomly inside histories",
         "assumptions": BOARD_ASSUME,
         "jobs": [
+            chess_model("model-null", ["NullEnabledOK", "DerivedOK", "HashPure"], ["NullOK"], MCQ, MCT),
             board_job("null", ["rebuild"], ["C14", "C03", "C10"], {"histories": 900, "subtrees": 80, "deep": 2}, {"histories": 60000, "subtrees": 200, "deep": 40}, sample_kinds=["null", "rebuild"]),
         ],
         "report": ["C14"],
@@ -108,6 +128,7 @@ PROPS = {
         "rule": "all 64*64*7 move values through try_play on a clone of every visited state; play() on all accepted plus sampled rejected values; refused moves inside histories",
         "assumptions": BOARD_ASSUME,
         "jobs": [
+            chess_model("model-tryplay", ["TryPlayOK", "IsLegalOK"], ["SuccOK"], dict(MCQ, sweep=1), dict(MCT, sweep=1)),
             board_job("tryplay", ["tryplay"], ["C15"], {"histories": 400, "subtrees": 80}, {"histories": 30000, "subtrees": 200, "deep": 20}, sample_kinds=["tryplay", "play"]),
         ],
     },
@@ -115,6 +136,7 @@ PROPS = {
         "rule": "generate_moves_for on ~20 masks per state (empty, full, own, kinds, singletons, random and complements, pinned set, ep origins) and every abort index for two masks",
         "assumptions": BOARD_ASSUME,
         "jobs": [
+            chess_model("model-masks", ["BatchesOK", "MaskLaw"], [], MCQ, dict(MCT, max_roots=40)),
             board_job("masks", ["gen", "genfor", "abort"], ["C16"], {"histories": 250, "subtrees": 80}, {"histories": 15000, "subtrees": 200, "deep": 10}, sample_kinds=["genfor", "abort"]),
         ],
     },
@@ -122,6 +144,7 @@ PROPS = {
         "rule": "SAN/UCI writer output and reader round trip for every legal move of visited states; reader queries: mutated canonical SAN, long and partial spellings",
         "assumptions": BOARD_ASSUME,
         "jobs": [
+            chess_model("model-san", ["SanCanonical"], [], dict(MCQ, max_roots=30), dict(MCT, depth=1)),
             board_job("san", ["san", "sanread"], ["C20"], {"histories": 120, "subtrees": 30}, {"histories": 6000, "subtrees": 200, "deep": 5}, sample_kinds=["san", "sanread"]),
         ],
     },
@@ -165,10 +188,11 @@ PROPS = {
         "rule": "soundness: every board returned by build() / from_fen / FromStr on candidate states and texts (accepted boards with 1-2 random mutations, targeted single-defect states per clause, random builder states, corrupted records) and every state logged along histories must satisfy Valid; acceptance: all 960 single and sampled (thorough: all 921 600) double start constructors equal Start(w,k) and positions along random play from them re-enter as text and through the builder",
         "assumptions": BOARD_ASSUME,
         "jobs": [
+            chess_model("model-sound", ["Sound", "ReachAccepted"], [], dict(MCQ, roots="starts", max_roots=120), dict(MCT, roots="starts", depth=2, max_roots=300)),
             parse_job("candidates", "cand", ["C06"], {"bases": 250, "mutations": 8, "random": 400}, {"bases": 12000, "mutations": 12, "random": 30000}, sample_kinds=["build"]),
             parse_job("starts", "starts", ["C06"], {"pairs": 2500}, {"all-pairs": 1}, sample_kinds=["start"]),
             parse_job("texts", "parse", ["C06"], {"bases": 40, "random": 300, "edits": 20}, {"bases": 2500, "random": 30000, "edits": 40}, sample_kinds=["parse"]),
-            board_job("reachable", ["text", "rebuild"], ["C06", "C07", "C09"], {"histories": 400, "subtrees": 0, "root-mix": "starts"}, {"histories": 30000, "subtrees": 0, "root-mix": "starts"}, sample_kinds=["reset", "play", "rebuild"]),
+            board_job("reachable", ["text", "rebuild"], ["C06", "C07", "C09"], {"histories": 700, "subtrees": 0, "root-mix": "starts", "plies": 70}, {"histories": 40000, "subtrees": 0, "root-mix": "starts", "plies": 90}, sample_kinds=["reset", "play", "rebuild"]),
         ],
         "report": ["C06"],
     },
